@@ -51,5 +51,10 @@ theorem shape :
     Gen.tokenWriters = ["kvElection.becomeLeader", "newKVElection"] ∧ Gen.takeoverFreshToken = true ∧
     Gen.becomeLeaderRefusesWhenLeading = true ∧ Gen.tokenAccessorIsTheStoredToken = true := by decide
 
+/-- … and the promotion callback is handed the token that `becomeLeader` was called with (captured when the term began,
+    inside the critical section - not read from the field when the callback's goroutine gets to run, which may be after the
+    term has ended and the next has begun). -/
+theorem callback_token_is_the_terms : Gen.promoteSignalsStart = true := by decide
+
 
 end NLE.Theorems.C05
